@@ -484,7 +484,7 @@ func (m c16) Run(c *core.Ctx) {
 		c.Nontrivial(fmt.Sprintf("byte0-%d", bi))
 		m.checkChain(c, ch)
 	}
-	n := c.Pick(60, 1500)
+	n := c.Pick(60, 20000)
 	for i := 0; i < n; i++ {
 		ch := c16build(c.Rng, c.Rng.Intn(9), c16fails[c.Rng.Intn(len(c16fails))])
 		if !c.Begin(func() string { return ch.Main }) {
